@@ -61,8 +61,9 @@ def known_match(known, pid, key_text):
 def finish(rep, checker_cmd, rule, extra_cov=None):
     """print verdict lines, write replays and evidence, return the exit status"""
     known = load_known()
-    os.makedirs(os.path.join(VERIF, "replays"), exist_ok=True)
-    os.makedirs(os.path.join(VERIF, "evidence"), exist_ok=True)
+    OUT = os.environ.get("VERIF_OUT", VERIF)   # the self-test redirects evidence and replays of mutated trees
+    os.makedirs(os.path.join(OUT, "replays"), exist_ok=True)
+    os.makedirs(os.path.join(OUT, "evidence"), exist_ok=True)
     real = []
     for v in rep.violations:
         key_text = json.dumps(v, ensure_ascii=False, sort_keys=True)
@@ -95,7 +96,7 @@ def finish(rep, checker_cmd, rule, extra_cov=None):
         if len(seen) > 3:
             break
         h = hashlib.sha1(json.dumps(v, ensure_ascii=False, sort_keys=True).encode()).hexdigest()[:12]
-        path = os.path.join(VERIF, "replays", "%s-%s.json" % (rep.pid, h))
+        path = os.path.join(OUT, "replays", "%s-%s.json" % (rep.pid, h))
         v2 = dict(v, property=rep.pid, seed=rep.seed, tier=rep.tier,
                   replay_cmd="./check %s --replay %s" % (rep.pid, path))
         json.dump(v2, open(path, "w"), indent=1, ensure_ascii=False)
@@ -128,10 +129,10 @@ def finish(rep, checker_cmd, rule, extra_cov=None):
         "property_id": rep.pid, "tier": rep.tier, "seed": rep.seed, "level": "proof", "coverage": cov,
         "assumptions": TRUSTED_BASE, "wall_s": round(time.time() - rep.t0, 2), "violations": len(seen),
     }
-    json.dump(ev, open(os.path.join(VERIF, "evidence", "%s.json" % rep.pid), "w"), indent=1, ensure_ascii=False)
+    json.dump(ev, open(os.path.join(OUT, "evidence", "%s.json" % rep.pid), "w"), indent=1, ensure_ascii=False)
     if status == 0 and failed_obl:
         # an obligation failed but nothing was turned into a violation: still not shown to hold
-        path = os.path.join(VERIF, "replays", "%s-obligation.json" % rep.pid)
+        path = os.path.join(OUT, "replays", "%s-obligation.json" % rep.pid)
         json.dump(dict(property=rep.pid, failed=[o[0] + ": " + o[2] for o in failed_obl]), open(path, "w"), indent=1)
         print("VIOLATION property=%s replay=%s no-failing-input-found" % (rep.pid, path))
         status = 1
